@@ -142,7 +142,10 @@ def run(tier, seed, threads, ev_path, scale, build, configs=None):
             continue
         idx = first_difference(bins[base_name], bins[name], seed, threads, n)
         if idx is None:
-            sys.stderr.write('HARNESS ERROR: batch digests differ between %s and %s but no differing run was found\n' % (base_name, name))
+            idx = first_difference(bins[base_name], bins[name], seed, threads, n)
+        if idx is None:
+            sys.stderr.write('HARNESS ERROR: the batch digests of %s and %s differ but no single run differs when re-executed: the transcripts are not a function of the run '
+                             '(output that depends on memory the call did not store? that is C18\'s to report - ./check C18); C17 cannot name a differing run\n' % (base_name, name))
             return 2
         ta = trace(bins[base_name][0], seed, idx, bins[base_name][1])
         tb = trace(bins[name][0], seed, idx, bins[name][1])
